@@ -889,7 +889,9 @@ func (h *RealtimeHandler) HandleReceipt(ctx context.Context, respond hwebsocket.
 			RequestId: req.RequestId,
 			Code:      hagallpb.ErrorCode_ERROR_CODE_BAD_REQUEST,
 		})
-		return errors.New("zero length receipt value detected")
+		// Returning an error here would close the connection before the
+		// error response above is written to it.
+		return nil
 	}
 
 	payload := ncsclient.ReceiptPayload{
@@ -913,7 +915,6 @@ func (h *RealtimeHandler) HandleReceipt(ctx context.Context, respond hwebsocket.
 			RequestId: req.RequestId,
 			Code:      hagallpb.ErrorCode_ERROR_CODE_SERVER_TOO_BUSY,
 		})
-		return errors.New("ReceiptChan full")
 	}
 
 	return nil
